@@ -174,7 +174,7 @@ def run(prog: Program, rep, thorough: bool) -> None:
         rep.ok('C01.R2', tc.where(F.density_node.ast), 'atmosphere queried at alt0 + y')
     else:
         rep.fail('C01.R2', tc.path, F.density_node.line, F.func.qualname, 'density-altitude',
-                 f'the atmosphere is queried at {dens_args[:1]!r}, the statement says station altitude + current height '
+                 f'the atmosphere is queried at {[a for a in dens_args if not (isinstance(a, Scalar) and a.rf.equals(want_alt))][:1] or dens_args[:1]!r}, the statement says station altitude + current height '
                  f'({want_alt!r})')
     cd = F.cfg.control_dependence()
     guards = [F.cfg.nodes[t] for t, _l in cd[F.density_node.id] if F.cfg.nodes[t] is not F.loop_head]
